@@ -16,7 +16,7 @@ LEVEL = "exploration"
 RULE = (
     "cases = histories: an initial project (truth kind, description, pre-state per target as in C09) followed by 2..6 "
     "generated steps from {sync(truth=k) with the same or another truth kind, edit_truth(new description), "
-    "touch_target(kind, pre-state)}; the harness keeps a model {file: bytes}. Invariants after every sync: (i) the returned "
+    "touch_target(kind, pre-state)}; one class/function target in four starts with its name bound twice in the module; the harness keeps a model {file: bytes}. Invariants after every sync: (i) the returned "
     "mapping marks exactly the files whose bytes changed; (ii) every printed modified/unchanged line agrees with it; (iii) the "
     "truth file's bytes are unchanged; (iv) a sync that directly follows a sync with the same arguments changes no file and "
     "reports no change; (v) every file parses. distinct = canonical-JSON hash of the history; non-trivial = history with >=2 "
@@ -79,6 +79,11 @@ def _history(draw, knob):
     others = [k for k in KEYS if k != base["truth"]]
     if knob is None and not base["method"] and draw(st.integers(0, 5)) == 0:
         base["shared"] = draw(st.sampled_from(others))
+    # a target module may bind the searched name twice (an early stub that is redefined further down): whichever of the
+    # two doctrans works on, the one it compares must be the one it rewrites, so the reports stay truthful
+    dups = [k for k, v in base["states"].items() if v in ("stale", "agreeing") and k != base["truth"] and k != base.get("shared")]
+    if knob is None and not base["method"] and dups and draw(st.integers(0, 3)) == 0:
+        base["dup"] = draw(st.sampled_from(sorted(dups, key=lambda k: k != "class")[:1] + dups))
     return base
 
 
@@ -89,9 +94,11 @@ def strategy(mode, knob=None):
 def valid(case):
     try:
         base = dict({k: case[k] for k in ("ir", "stale_ir", "truth", "states", "method")}, nested=case.get("nested", False), cli=case.get("cli", False))  # (no mirror file here)
-        if not c09.valid(base) or set(case) - {"nested", "cli", "mirror", "shared"} != {"ir", "stale_ir", "truth", "states", "method", "steps", "path_style"}:
+        if not c09.valid(base) or set(case) - {"nested", "cli", "mirror", "shared", "dup"} != {"ir", "stale_ir", "truth", "states", "method", "steps", "path_style"}:
             return False
         if case.get("shared") is not None and (case["shared"] not in KEYS or case["shared"] == case["truth"]):
+            return False
+        if case.get("dup") is not None and (case["dup"] not in KEYS or case["dup"] == case["truth"] or case["method"]):
             return False
         if case["path_style"] not in ("abs", "relative", "symlink"):
             return False
@@ -153,6 +160,18 @@ def run_case(case):
             paths = dict(paths, **{shared: paths[truth]})
             if shared not in given:
                 given.append(shared)
+        dup = case.get("dup")
+        if dup and dup != truth and dup != shared and dup in given and os.path.isfile(paths[dup]) and not case.get("nested"):
+            with open(paths[dup]) as f:
+                s0 = f.read()
+            try:
+                ok = len(project.find_defs(s0, dup, method, False)[0]) == 1
+            except SyntaxError:
+                ok = False
+            if ok:
+                with open(paths[dup], "w") as f:
+                    f.write(s0.rstrip("\n") + "\n\n\n" + project.def_source(dup, domain.to_ir(case["stale_ir"]), method, False))
+                tags.add("duplicate_definition")
         last_sync_sig, dirty = None, True
         for i, s_ in enumerate(steps):
             if s_["op"] == "edit":
